@@ -129,7 +129,9 @@ func checkMain(args []string) int {
 		fmt.Println("INFRA:", err)
 		return 2
 	}
-	defer os.RemoveAll(scratch)
+	if os.Getenv("GOSYM_KEEP") == "" {
+		defer os.RemoveAll(scratch)
+	}
 	profilesTable := ""
 	needProfiles := false
 	for _, j := range p.Jobs {
@@ -291,7 +293,7 @@ func checkMain(args []string) int {
 				rc := replayCase{ID: fmt.Sprintf("v%d", k), Entry: r.spec.Entry, Params: r.params, API: v.API}
 				if v.Unreached != "" {
 					rc.Repeat, rc.Want = 3000, v.Unreached
-				} else if r.params["SCHED"] == 1 {
+				} else if r.params["SCHED"] == 1 || v.SchedDep {
 					rc.Repeat = 20000 // schedule-dependent: repeated under the real scheduler until it shows
 				}
 				cases = append(cases, rc)
@@ -358,7 +360,7 @@ func checkMain(args []string) int {
 					}
 					if !vo.confirmed {
 						vo.detail = fmt.Sprintf("native run did not fail assertion %q (native failures: %v, panic %q)", v.Label, cr.Failures, cr.Panic)
-						if r.params["SCHED"] == 1 && len(cr.Failures) == 0 && cr.Panic == "" {
+						if (r.params["SCHED"] == 1 || v.SchedDep) && len(cr.Failures) == 0 && cr.Panic == "" {
 							// schedule-dependent: the interleaving is a decision trail the engine re-executes
 							// deterministically; the real scheduler did not produce it within the repeat budget
 							vo.confirmed = true
@@ -468,9 +470,14 @@ func checkMain(args []string) int {
 		fmt.Println(l)
 	}
 	totalPaths, totalQ := 0, 0
+	sec2, agree2 := 0, 0
 	for _, r := range runs {
 		totalPaths += r.res.Paths
 		totalQ += r.res.Queries
+		if r.res.Second != nil {
+			sec2 += toInt(r.res.Second["rechecked"])
+			agree2 += toInt(r.res.Second["agreed"])
+		}
 	}
 	verdict := "HOLDS within bounds"
 	if exit == 1 {
@@ -478,8 +485,8 @@ func checkMain(args []string) int {
 	} else if exit == 2 {
 		verdict = "INCONCLUSIVE (infrastructure)"
 	}
-	fmt.Printf("property=%s tier=%s jobs=%d paths=%d queries=%d native_validated=%d known_findings=%d violations=%d wall=%.1fs: %s\n",
-		*prop, *tier, len(runs), totalPaths, totalQ, validated, nKF, nViol, time.Since(t0).Seconds(), verdict)
+	fmt.Printf("property=%s tier=%s jobs=%d paths=%d queries=%d native_validated=%d second_solver=%d/%d known_findings=%d violations=%d wall=%.1fs: %s\n",
+		*prop, *tier, len(runs), totalPaths, totalQ, validated, agree2, sec2, nKF, nViol, time.Since(t0).Seconds(), verdict)
 	return exit
 }
 
@@ -650,7 +657,7 @@ func persistReplay(root, repo, prop string, r *jobRun, v symx.Violation) string 
 	cases := []replayCase{{ID: "v0", Entry: r.spec.Entry, Params: r.params, API: v.API}}
 	if v.Unreached != "" {
 		cases[0].Repeat, cases[0].Want = 3000, v.Unreached
-	} else if r.params["SCHED"] == 1 {
+	} else if r.params["SCHED"] == 1 || v.SchedDep {
 		cases[0].Repeat = 20000
 	}
 	writeReplayDir(root, repo, dir, r, cases)
